@@ -13,6 +13,8 @@ NoneN == [k |-> "none"]
 Leaf(id, v) == [k |-> "leaf", id |-> id, v |-> v, h |-> VNone]
 LeafL(id) == [k |-> "leaf", id |-> id, v |-> VRef(id), h |-> VList(<<VInt(10), VInt(20), VInt(30)>>)]
 LeafO(id) == [k |-> "leaf", id |-> id, v |-> VRef(id), h |-> VObj(VInt(7))]
+\* a mutable set object (members: small ints, kept in ascending order)
+LeafS(id, xs) == [k |-> "leaf", id |-> id, v |-> VRef(id), h |-> VSet(xs)]
 Name(id) == [k |-> "name", id |-> id]
 Bin(op, l, r) == [k |-> "bin", op |-> op, l |-> l, r |-> r]
 Un(op, x) == [k |-> "un", op |-> op, x |-> x]
